@@ -56,7 +56,7 @@ Print Assumptions wrap_presents_dom.
 
 (* full statement: for every DOM, the wrapper presents the nodes of the native tree of the DOM's serialisation *)
 Definition wrap_eq_build_statement (xs : list xnode) : Prop :=
-  exists d, build_sax (events_of_list (map x2t xs)) = Some d /\ map (strip true) d = map wstrip (wrap xs).
+  exists d, build_sax (sax_of_list xs) = Some d /\ map (strip true) d = map wstrip (wrap xs).
 
 Definition s_a : str := [97%N].
 Definition s_b : str := [98%N].
@@ -71,6 +71,13 @@ Proof.
 Qed.
 Print Assumptions wrap_eq_build_refuted.
 
+(* refuted by a document type declaration: the wrapper presents it as a node (with an index, before
+   the document element); a parser reports nothing for it to the native builder *)
+Definition doctype_witness : list xnode := [XDoctype s_a 0; XElem s_a [] []].
+Theorem wrap_eq_build_refuted_doctype : ~ wrap_eq_build_statement doctype_witness.
+Proof. intros [d [Hb He]]. vm_compute in Hb. inversion Hb; subst. vm_compute in He. discriminate. Qed.
+Print Assumptions wrap_eq_build_refuted_doctype.
+
 (* refuted also by attribute order alone: the DOM keeps its own order, the native builder puts the
    xmlns declarations first *)
 Definition attr_witness : list xnode := [XElem s_a [(s_b, s_x); (s_xmlns_colon ++ s_y, s_x)] []].
@@ -83,7 +90,7 @@ Print Assumptions wrap_eq_build_refuted_attr_order.
    nodes in the same order (indexes and the implicit xmlns:xml attribute of the native document
    element erased), and BOTH numberings are consecutive in that order *)
 Theorem wrap_eq_build_partial : forall xs, xnormal xs = true ->
-  exists d, build_sax (events_of_list (map x2t xs)) = Some d
+  exists d, build_sax (sax_of_list xs) = Some d
             /\ map (strip true) d = map wstrip (wrap xs)
             /\ incr_from first_index (flat d)
             /\ incr_from wrap_first_index (wflat (wrap xs)).
